@@ -79,6 +79,8 @@ func init() {
 		var attrs uint32
 		fmt.Sscan(a[4], &attrs)
 		value := unhx(a[5])
+		attributes.Efivars = "/elsewhere/efivars"
+		preW := fswrapper.NewMemoryWrapper()
 		attributes.Efivars = dir
 		rec := newRecFs(afero.NewMemMapFs())
 		rec.plan.shortFirstWrite = len(a) > 8 && a[8] == "short"
@@ -88,7 +90,7 @@ func init() {
 		var err error
 		switch api {
 		case "object":
-			e := &efivarfs.EFIFS{FSWrapper: fswrapper.NewMemoryWrapper()}
+			e := &efivarfs.EFIFS{FSWrapper: preW}
 			e.SetFS(rec)
 			err = e.WriteVar(efivar.Efivar{Name: name, GUID: &g, Attributes: attributes.Attributes(attrs)}, rawValue(value))
 		case "wrapper":
@@ -108,8 +110,12 @@ func init() {
 		api, dir, name, g := a[0], string(unhx(a[1])), string(unhx(a[2])), parseGuidArg(a[3])
 		var req uint32
 		fmt.Sscan(a[4], &req)
+		// the objects are made while the directory variable still names another place
+		attributes.Efivars = "/elsewhere/efivars"
+		preW := fswrapper.NewMemoryWrapper()
 		attributes.Efivars = dir
 		rec := newRecFs(afero.NewMemMapFs())
+		rec.plan.halfReads = len(a) > 7 && a[7] == "half"
 		if a[5] != "-" {
 			afero.WriteFile(rec.base, a[6], unhx(a[5]), 0644)
 		}
@@ -118,7 +124,7 @@ func init() {
 		var at attributes.Attributes
 		switch api {
 		case "object":
-			e := &efivarfs.EFIFS{FSWrapper: fswrapper.NewMemoryWrapper()}
+			e := &efivarfs.EFIFS{FSWrapper: preW}
 			e.SetFS(rec)
 			at, err = e.GetVarWithAttributes(efivar.Efivar{Name: name, GUID: &g, Attributes: attributes.Attributes(req)}, dec)
 		case "object-getvar":
@@ -154,7 +160,7 @@ func init() {
 		}
 	}
 	checkers["C11"] = checker{
-		rule: "every predefined variable and random name/GUID/attribute combinations, values of every kind (empty, boolean, UTF-16 string, database, raw), all 256 attribute masks on writes, stored masks that are supersets / subsets / disjoint / equal / lacking exactly one required bit on reads, absent and 0..3-byte files, four efivars directories, the object API (EFIFS.WriteVar/GetVar/GetVarWithAttributes, FSWrapper) and the legacy attributes.* functions; a recording afero.Fs reports every state-changing call; R_C11 (extracted) requires success with exactly OpenFile(path, flags)+Write(attrs||value) (and, when the file system stores one byte less without an error, the same single Write and no success) resp. the model's read result; every case is non-trivial (no degenerate class), distinct by argument hash",
+		rule: "every predefined variable and random name/GUID/attribute combinations, values of every kind (empty, boolean, UTF-16 string, database, raw), all 256 attribute masks on writes, stored masks that are supersets / subsets / disjoint / equal / lacking exactly one required bit on reads, absent and 0..3-byte files, four efivars directories (set after the objects were constructed), files that deliver short reads, the object API (EFIFS.WriteVar/GetVar/GetVarWithAttributes, FSWrapper) and the legacy attributes.* functions; a recording afero.Fs reports every state-changing call; R_C11 (extracted) requires success with exactly OpenFile(path, flags)+Write(attrs||value) (and, when the file system stores one byte less without an error, the same single Write and no success) resp. the model's read result; every case is non-trivial (no degenerate class), distinct by argument hash",
 		run:  runC11,
 	}
 }
@@ -208,7 +214,8 @@ func runC11(c *Ctx) {
 		if !absent {
 			cont = hx(content)
 		}
-		o := c.Impl("var_read", api, hx([]byte(dir)), hx([]byte(name)), guidArg(g), fmt.Sprint(req), cont, p)
+		// one read in four goes through a file that delivers at most half of every request
+		o := c.Impl("var_read", api, hx([]byte(dir)), hx([]byte(name)), guidArg(g), fmt.Sprint(req), cont, p, pick(rng, []string{"", "", "", "half"}))
 		obs := "E~1"
 		if o.Class == "ret" && len(o.Fields) == 1 {
 			obs = o.Fields[0]
